@@ -65,6 +65,10 @@ func VH_C17_render() {
 		opts = append(opts, o)
 	}
 	text := vx.String(vx.ParamInt("len"))
+	xv := 0 // which XML value: 0 a document, 1 an empty slice, 2 a nil pointer (both encode to zero bytes)
+	if kind == "xml" {
+		xv = vx.Choice(3)
+	}
 	late := vx.Bool() // render from the second handler after Renderer instead of the first
 
 	f := NewWithLogger(io.Discard)
@@ -74,7 +78,14 @@ func VH_C17_render() {
 		case "json":
 			r.JSON(status, "VAL")
 		case "xml":
-			r.XML(status, vXMLDoc{V: "VAL"})
+			switch xv {
+			case 0:
+				r.XML(status, vXMLDoc{V: "VAL"})
+			case 1:
+				r.XML(status, []vXMLDoc{})
+			case 2:
+				r.XML(status, (*vXMLDoc)(nil))
+			}
 		case "binary":
 			r.Binary(status, []byte(text))
 		case "text":
@@ -145,7 +156,9 @@ func VH_C17_render() {
 			vx.Assert(jsonIndent == "" || true, "C17: indentation (scalar body: nothing to indent)")
 		}
 	case "xml":
-		if vx.Symbolic() {
+		if xv != 0 {
+			vx.Assert(len(spy.body) == 0, "C17: a value whose XML encoding is empty gives an empty body (under the given status)")
+		} else if vx.Symbolic() {
 			log := vx.StubLog()
 			vx.Assert(len(log) >= 1 && strings.HasPrefix(log[len(log)-1], "xml.Encode ") && strings.HasSuffix(log[len(log)-1], " indent="+xmlIndent) && string(spy.body) == "<xml>",
 				"C17: the body is exactly the XML encoding of the given value (encoder bound to this request's writer, configured indentation)")
@@ -158,5 +171,5 @@ func VH_C17_render() {
 			}
 		}
 	}
-	vx.Observe("render", kind, late, spy.firstCode, spy.ctAtStatus)
+	vx.Observe("render", kind, xv, late, spy.firstCode, spy.ctAtStatus)
 }
